@@ -165,9 +165,9 @@ func readMessage(conn *net.UnixConn) (*message, error) {
 	msg := new(message)
 	msg.Type = messageType(b[0])
 	msg.Len = uint16(b[1])<<8 | uint16(b[2]) // big endian
-	if uint16(len(b[2:n])) < msg.Len {
+	if len(b[3:n]) < int(msg.Len) {
 		return nil, errors.New("incomplete data")
 	}
-	msg.Data = b[3 : 3+msg.Len]
+	msg.Data = b[3 : 3+int(msg.Len)]
 	return msg, nil
 }
